@@ -314,13 +314,28 @@ class EvTables:
             self.issue("T_eval", f.key, "no match on the Node parameter")
             return out
         self._cache["eval_match_is_tail"] = True
+        # `Ok(match node { A => x, .. })`: the constructor hoisted out of the arms is put back into each arm
+        hoisted_ok = False
+        b_ = body
+        while isinstance(b_, dict) and b_ is not m:
+            if b_.get("k") == "block" and not b_.get("stmts") and b_.get("tail"):
+                b_ = b_["tail"]
+            elif b_.get("k") in ("scope", "use", "expr", "nevertoany") and isinstance(b_.get("e"), dict):
+                b_ = b_["e"]
+            elif b_.get("k") == "adt" and b_.get("adt") == "std::result::Result" and b_.get("variant") == "Ok" and len(b_.get("fields", [])) == 1 and not hoisted_ok:
+                hoisted_ok = True
+                b_ = b_["fields"][0]["e"]
+            else:
+                break
+        hoisted_ok = hoisted_ok and b_ is m
         for a in m["arms"]:
             ctx = T.Ctx(eval_fn=self.eval_names(), inline_pure=True)
             binders = []
             p = T.pat_term(a["pat"], ctx, binders)
             for i, (vid, nm, orig) in enumerate(binders):
                 ctx.env[vid] = ("C%d" % i,)
-            t = T.alpha(T.strip_tail_returns(T.normalise(self.TR.term(a["body"], ctx))))
+            raw = self.TR.term(a["body"], ctx)
+            t = T.alpha(T.strip_tail_returns(T.normalise(("Ok", raw) if hoisted_ok else raw)))
             t = self.local(t)
             t = self.canon_result(t)
             for _ in range(4):
@@ -507,11 +522,12 @@ class EvTables:
                     self._fresh = getattr(self, "_fresh", 0) + 1
                     body = freshen(body, self._fresh)
                     mapping, lets = {}, []
+                    mut_params = {p_["pat"].get("name") for p_ in f.thir["params"] if isinstance(p_.get("pat"), dict) and p_["pat"].get("k") == "bind" and "Mut" in str(p_["pat"].get("mode", "")).split(",")[-1]}
                     for i_, (pn, arg) in enumerate(zip(params, t[2:])):
                         uses = sum(1 for s_ in subterms(body) if s_ == ("param", pn))
                         assigned = any(isinstance(s_, tuple) and ((len(s_) == 3 and s_[0] == "set" and s_[1] == ("param", pn)) or (len(s_) == 5 and s_[0] == "setop" and s_[3] == ("param", pn))) for s_ in subterms(body))
                         trivial = not isinstance(arg, tuple) or arg[0] in ("var", "param", "lit", "const", "fnref", "lambda", "ctor") and T.term_size(arg) <= 3 or (len(arg) == 1)
-                        if assigned:
+                        if assigned or (pn in mut_params and uses > 0 and not (isinstance(arg, tuple) and arg and arg[0] == "var" and isinstance(arg[1], str) and arg[1].startswith("m"))):
                             nm = "m%d" % (1000 * self._fresh + 900 + i_)      # `mut` parameter: a mutable local initialised with the argument
                             lets.append(("let", nm, arg))
                             mapping[pn] = ("var", nm)
